@@ -172,6 +172,76 @@ def fam_grid_holes(ctx, rng):
     run_entry(ctx, 'grid', entry, b, hs)
 
 
+def fam_staggered_holes(ctx, rng):
+    """two or three holes with overlapping x-extents, one of them a slanted band that reaches further LEFT than its neighbour at the
+    neighbour's level and further RIGHT elsewhere (so the order in which holes are bridged matters); every start vertex / winding"""
+    sy = rng.choice([1, -1])                      # mirrored vertically or not
+    j = lambda: G.dy(rng.uniform(-0.25, 0.25), 6)
+    band = [(-6.0 + j(), sy * (-4.0 + j())), (-4.0 + j(), sy * (-4.0 + j())), (6.0 + j(), sy * (4.0 + j())), (4.0 + j(), sy * (4.0 + j()))]
+    cx, cy = 3.0 + j(), sy * (-2.0 + j())
+    k = rng.randint(3, 5); r = rng.choice([0.5, 0.75, 1.0]); a0 = rng.uniform(0, 6.28)
+    small = [(G.dy(cx + r * math.cos(a0 + 2 * math.pi * i / k), 6), G.dy(cy + r * math.sin(a0 + 2 * math.pi * i / k), 6)) for i in range(k)]
+    hs = [band, small]
+    if rng.random() < 0.5:
+        cx2, cy2 = -3.0 + j(), sy * (2.5 + j())
+        hs.append([(G.dy(cx2 + 0.75 * math.cos(a0 + 2 * math.pi * i / 4), 6), G.dy(cy2 + 0.75 * math.sin(a0 + 2 * math.pi * i / 4), 6)) for i in range(4)])
+    b = [(-9.0 + j(), -7.0 + j()), (9.0 + j(), -7.0 + j()), (10.0 + j(), 0.0 + j()), (9.0 + j(), 7.0 + j()), (-9.0 + j(), 7.0 + j())]
+    out = []
+    for h in hs:
+        st = rng.randrange(len(h)); h = h[st:] + h[:st]
+        if rng.random() < 0.5:
+            h = h[::-1]
+        out.append(h)
+    hs = out
+    if rng.random() < 0.5:
+        b = b[::-1]
+    fb = [X.fpt(p) for p in b]
+    if not all(G.certify_polygon(l) for l in [b] + hs) or not all(X.winding_inside(fb, X.fpt(p)) is True for h in hs for p in h):
+        return
+    fhs = [[X.fpt(p) for p in h] for h in hs]
+    for i in range(len(fhs)):
+        for k2 in range(i + 1, len(fhs)):
+            if any(X.segs_intersect(fhs[i][u - 1], fhs[i][u], fhs[k2][v - 1], fhs[k2][v]) for u in range(len(fhs[i])) for v in range(len(fhs[k2]))) \
+                    or X.winding_inside(fhs[i], fhs[k2][0]) is not False or X.winding_inside(fhs[k2], fhs[i][0]) is not False:
+                return
+    run_entry(ctx, 'staggered', rng.choice(['earcut', 'mesh2d', 'face3d']), b, hs)
+
+
+def fam_split_hashed(ctx, rng):
+    """a concave quadrilateral with a triangular hole close to its re-entrant corner (ear clipping gets stuck and has to split the ring
+    by a diagonal), one long edge carrying an outward sawtooth so that the vertex count is above (or just below) the threshold of
+    the z-order hashed ear test; placed by exact similarities"""
+    quad = [(-38.0, 21.0), (-28.0, 28.0), (21.0, 92.0), (53.0, 13.0)]
+    hole = [(-16.0, 40.0), (-22.0, 35.0), (-13.0, 23.0)]
+    teeth = rng.choice([60, 70, 74, 75, 76, 80, 90, 110])
+    (ax, ay), (cx, cy) = quad[2], quad[3]
+    dx, dy = cx - ax, cy - ay
+    L = math.hypot(dx, dy); nx, ny = -dy / L, dx / L
+    extra = []
+    amp = rng.choice([1.0, 1.0, 0.5, 1.5])
+    for k in range(1, teeth + 1):
+        t = k / (teeth + 1.0)
+        d = ((4.0 if k % 2 else 1.2) + 6.0 * t * (1.0 - t)) * amp
+        extra.append((G.dy(ax + t * dx + nx * d, 8), G.dy(ay + t * dy + ny * d, 8)))
+    b = quad[:3] + extra + quad[3:]
+    # exact similarity: optional mirror, quarter turns, dyadic scale, translation
+    mir = rng.random() < 0.3; rot = rng.choice([0, 0, 0, 1, 2, 3]); k_ = rng.choice([1.0, 1.0, 0.5, 2.0, 8.0]); tx, ty = G.rpt2(rng, 100)
+    def T(p):
+        x, y = p
+        if mir: x = -x
+        for _ in range(rot): x, y = -y, x
+        return (x * k_ + tx, y * k_ + ty)
+    b = [T(p) for p in b]; hs = [[T(p) for p in hole]]
+    if rng.random() < 0.5: b = b[::-1]
+    if rng.random() < 0.5: hs = [hs[0][::-1]]
+    st = rng.randrange(3); hs = [hs[0][st:] + hs[0][:st]]
+    fb = [X.fpt(p) for p in b]
+    if not G.certify_polygon(b) or not all(X.winding_inside(fb, X.fpt(p)) is True for p in hs[0]) \
+            or any(X.orient(fb[i - 2], fb[i - 1], fb[i]) == 0 for i in range(len(fb))):
+        return
+    run_entry(ctx, 'split_hashed', rng.choice(['earcut', 'mesh2d', 'face3d']), b, hs)
+
+
 def fam_earcut(ctx, rng):
     fam, b, hs = make_shape(rng)
     entry = rng.choice(['earcut', 'mesh2d', 'face3d'])
@@ -242,7 +312,7 @@ def fam_predicates(ctx, rng):
             ctx.violation('tri.pred:point_in_triangle', '_point_in_triangle=%r expected %r' % (inside, exp), dict(desc, p=p))
 
 
-FAMILIES = [(fam_grid_holes, 40), (fam_earcut, 220), (fam_predicates, 200)]
+FAMILIES = [(fam_grid_holes, 40), (fam_staggered_holes, 40), (fam_split_hashed, 16), (fam_earcut, 220), (fam_predicates, 200)]
 
 
 def explore(ctx):
